@@ -600,13 +600,28 @@ def gen_config():
     flags["checksumCollisionResistant"] = probe_in_child('''
         import hashlib, io, contextlib
         from pyab_experiment.experiment_evaluator import ExperimentEvaluator
-        t = 'def e {  return "a  b" weighted 1 } // \\u00e9'
-        with contextlib.redirect_stdout(io.StringIO()), contextlib.redirect_stderr(io.StringIO()):
-            ev = ExperimentEvaluator(t)
-        c = ev._checksum
-        b = t.encode("utf-8")
-        fam = [getattr(hashlib, n)(b) for n in ("md5", "sha1", "sha224", "sha256", "sha384", "sha512", "blake2b", "blake2s", "sha3_256", "sha3_512")]
-        print(any(c in (h.hexdigest(), h.digest()) for h in fam))
+        # runs of blanks, a tab, comment markers and a hash sign INSIDE literals, mixed case, characters that are not in NFC /
+        # NFKC form, a `//` comment, a block comment, trailing white space, a blank line, CRLF
+        texts = ['def e {  return "a  b" weighted 1 } // \\u00e9',
+                 'def Exp_1 {\\r\\n  salt: "https://cdn.example/a\\tb  # c /* d */ e\\u0301 \\u212b \\ufb01"  \\n\\n  splitters: u, V\\n'
+                 '  if V == "New  York " { return "A" weighted 1, "a" weighted 2.50 } /* x\\n y */ else { return "z" weighted 1 } // t \\n}  \\n\\n']
+        ok = True
+        for t in texts:
+            with contextlib.redirect_stdout(io.StringIO()), contextlib.redirect_stderr(io.StringIO()):
+                ev = ExperimentEvaluator(t)
+            c = ev._checksum
+            b = t.encode("utf-8")
+            fam = [getattr(hashlib, n)(b) for n in ("md5", "sha1", "sha224", "sha256", "sha384", "sha512", "blake2b", "blake2s", "sha3_256", "sha3_512")]
+            ok = ok and any(c in (h.hexdigest(), h.digest()) for h in fam)
+        # a text with a character that has no UTF-8 encoding is not quietly digested without it
+        try:
+            with contextlib.redirect_stdout(io.StringIO()), contextlib.redirect_stderr(io.StringIO()):
+                ev = ExperimentEvaluator(texts[0])
+                ev.recompile(texts[0] + "\\udc80")
+            ok = False
+        except Exception:
+            pass
+        print(ok)
     ''')
     flags["checksumEarly"] = not probe_in_child('''
         import io, contextlib
@@ -657,6 +672,21 @@ def gen_config():
 
 MUTATORS = {"append", "extend", "insert", "pop", "remove", "clear", "add", "update", "discard", "setdefault", "popitem",
             "sort", "reverse", "__setitem__", "__delitem__", "appendleft", "popleft"}
+
+
+# calls whose whole point is to change state shared by every thread of the process
+PROCESS_SETTERS = {
+    "sys": {"setrecursionlimit", "setswitchinterval", "settrace", "setprofile", "set_int_max_str_digits", "setdlopenflags", "set_asyncgen_hooks",
+            "set_coroutine_origin_tracking_depth", "setcheckinterval"},
+    "signal": {"signal", "alarm", "setitimer", "siginterrupt", "set_wakeup_fd", "pthread_sigmask"},
+    "os": {"chdir", "fchdir", "umask", "putenv", "unsetenv", "setuid", "setgid", "nice", "chroot", "setsid"},
+    "locale": {"setlocale"}, "random": {"seed", "setstate"}, "gc": {"disable", "enable", "set_threshold", "freeze", "set_debug"},
+    "warnings": {"simplefilter", "filterwarnings", "resetwarnings"}, "logging": {"basicConfig", "disable", "setLoggerClass", "setLogRecordFactory"},
+    "threading": {"settrace", "setprofile", "stack_size"}, "resource": {"setrlimit"}, "decimal": {"setcontext"}, "faulthandler": {"enable", "disable"},
+    "tracemalloc": {"start", "stop"}, "socket": {"setdefaulttimeout"}, "time": {"tzset"}, "importlib": {"reload", "invalidate_caches"},
+    "atexit": {"register", "unregister"}, "multiprocessing": {"set_start_method"}, "tempfile": {"tempdir"},
+}
+PROCESS_SETTER_NAMES = set().union(*PROCESS_SETTERS.values())
 
 
 class EffectVisitor(ast.NodeVisitor):
@@ -786,6 +816,16 @@ class EffectVisitor(ast.NodeVisitor):
                     self.record(self.base_kind(f.value), ast.unparse(f)[:60])
                 elif isinstance(f, ast.Name) and f.id in ("setattr", "delattr") and node.args:
                     self.record(self.base_kind(node.args[0]), ast.unparse(node)[:60])
+                elif isinstance(f, ast.Attribute) and isinstance(f.value, ast.Name) and f.attr in PROCESS_SETTERS.get(f.value.id, ()):
+                    self.record("process-global", ast.unparse(f)[:60])
+                elif isinstance(f, ast.Name) and f.id in PROCESS_SETTER_NAMES and f.id in self.module_names and f.id not in self.assigned:
+                    # `from sys import setrecursionlimit`
+                    self.record("process-global", f.id)
+                elif (isinstance(f, ast.Attribute) and isinstance(f.value, ast.Attribute) and isinstance(f.value.value, ast.Name)
+                      and f.value.value.id == "os" and f.value.attr == "environ" and f.attr in MUTATORS):
+                    self.record("process-global", ast.unparse(f)[:60])
+            elif isinstance(node, ast.Subscript) and isinstance(node.ctx, (ast.Store, ast.Del)) and ast.unparse(node.value) in ("os.environ", "sys.modules", "sys.path"):
+                self.record("process-global", ast.unparse(node)[:60])
         return self.effects
 
 
